@@ -59,7 +59,8 @@ pub fn meta_concrete(label: &str) -> (Value, Value, Value, Value) {
             json!({"tier": "silver", "region": "eu"}),
             json!({"agones.dev/ready-container-id": "c-2"}),
             json!({"players": {"count": 7, "capacity": 10}, "rooms": {"capacity": 2}}),
-            json!({"maps": {"capacity": 4, "values": []}}),
+            // an empty list as the API server spells it (a nil Go slice)
+            json!({"maps": {"capacity": 4, "values": null}}),
         ),
         _ => (json!({}), json!({}), json!({}), json!({})),
     }
@@ -142,6 +143,7 @@ const PATIENCE: Duration = Duration::from_millis(12000);
 const AFTER_SYNC: Duration = Duration::from_millis(2000); // ... and at least this long after the mock had delivered everything
 const HARD_CAP: Duration = Duration::from_millis(45000);
 const STABLE_FOR: Duration = Duration::from_millis(5000); // a wrong offer is only recorded once it has not changed for this long
+const RELIST_PATIENCE: Duration = Duration::from_millis(15000);
 const STEP_WAIT: Duration = Duration::from_millis(20000); // waiting for the client to (re)connect / ask for the LIST
 
 async fn run_history(line: usize, hist: &Value, dir: &str) -> Value {
@@ -220,6 +222,10 @@ async fn run_history(line: usize, hist: &Value, dir: &str) -> Value {
         } else {
             None
         };
+        // an "errevent" step right behind a change: its ERROR event shares the chunk with that change's event
+        if matches!(step, Step::Create(..) | Step::Modify(..) | Step::Delete(..)) && steps.get(i + 1).map(|n| n["k"] == "errevent").unwrap_or(false) {
+            mock.trail_next_event_with_error();
+        }
         if let Err(why) = mock.apply(&step, STEP_WAIT).await {
             stuck = format!("step {}: {}", i + 1, why);
         }
@@ -243,11 +249,15 @@ async fn run_history(line: usize, hist: &Value, dir: &str) -> Value {
             if !judged || ok || !stuck.is_empty() || PANICKED.get() {
                 break;
             }
-            if let Some(n) = mock.relisting() {
-                stuck = format!("step {}: relisting: the LIST was answered {} times and no watch followed", i + 1, n);
-                break;
-            }
             let el = t0.elapsed();
+            // "cannot digest the LIST answer" is only concluded from a client that has kept re-listing for a good while (five or more
+            // answers, backing off): one or two failed attempts happen to a healthy client on a busy machine
+            if let Some(n) = mock.relisting() {
+                if el >= RELIST_PATIENCE && n >= 5 {
+                    stuck = format!("step {}: relisting: the LIST was answered {} times and no watch followed", i + 1, n);
+                    break;
+                }
+            }
             let after_sync_ok = synced_at.map(|s| s.elapsed() >= AFTER_SYNC).unwrap_or(false);
             // give up on a WRONG value only when it has not moved for a while (a client that is still catching up is waited for)
             if el >= HARD_CAP || (el >= PATIENCE && (after_sync_ok || !need_sync) && last_change.elapsed() >= STABLE_FOR) {
